@@ -21,7 +21,8 @@ Inductive eop :=
   | EStaticUpdate (mac ip : N) (host : N)
   | EStaticRemove (mac ip : N) (host : N)
   | ETick
-  | ERestart.
+  | ERestart
+  | ESetConfig (start end_ : N).   (* set_config with this pool, same network *)
 
 (** table: flat (address, hardware address, name, kind) with kind 0 static,
     1 dynamic not expired, 2 dynamic expired or never acknowledged, sorted by
@@ -34,8 +35,11 @@ Inductive obs :=
 (** [busy]: the (encoded) addresses that answer the ICMP probe during the step. *)
 Inductive stepobs := St (dt : Z) (busy : list N) (o : eop) (ob : obs).
 
+(** [ConfCase]: the four addresses of a configuration, whether the real
+    Validate accepted them, and the subnet it derived (first and last address). *)
 Inductive case :=
-  Case (c : conf) (names : list bytes) (nprobe : nat) (t0 : Z) (steps : list stepobs).
+  | Case (c : conf) (names : list bytes) (nprobe : nat) (t0 : Z) (steps : list stepobs)
+  | ConfCase (start end_ gw mask : N) (accepted : bool) (sub_lo sub_hi : N).
 
 Section Codec.
   Variable c : conf.
@@ -64,7 +68,7 @@ Section Codec.
     | EStaticUpdate m ip h => OStaticUpdate m (dec_ip ip) (dec_host h)
     | EStaticRemove m ip h => OStaticRemove m (dec_ip ip) (dec_host h)
     | ETick => OTick
-    | ERestart => ORestart
+    | ERestart | ESetConfig _ _ => ORestart
     end.
 
   Definition enc_reply (r : reply) : reply :=
@@ -131,18 +135,29 @@ Fixpoint first_bad (c : conf) (names : list bytes) (nprobe : nat) (t0 : Z) (i : 
   | [] => None
   | St dt busy o ob :: rest =>
       let now := (t0 + dt)%Z in
-      let '(s', r) := step c s now (map (dec_ip c) busy) (dec_op c names o) in
+      let '(c', s', r) :=
+        match o with
+        | ESetConfig a b =>
+            let '(c1, s1, ok) := set_config_pool c (dec_ip c a) (dec_ip c b) s in (c1, s1, RApi ok)
+        | _ => let '(s1, r1) := step c s now (map (dec_ip c) busy) (dec_op c names o) in (c, s1, r1)
+        end in
       let m := model_tables c names nprobe now s' in
       let '(r1, seen, d1) :=
         match ob with Ob r t a b d => (r, (t, a, b), d) | ObS r d => (r, prev, d) end in
       if eqb_reply r1 (enc_reply c r) && eqb_tables seen m && Bool.eqb d1 (disk_is_memory s')
-      then first_bad c names nprobe t0 (i + 1) s' seen rest
+      then first_bad c' names nprobe t0 (i + 1) s' seen rest
       else Some (i, enc_reply c r, m, disk_is_memory s')
   end.
 
 Definition explain (k : case) :=
-  let '(Case c names nprobe t0 steps) := k in
-  first_bad c names nprobe t0 0 empty_state ([], [], []) steps.
+  match k with
+  | Case c names nprobe t0 steps => first_bad c names nprobe t0 0 empty_state ([], [], []) steps
+  | ConfCase a b gw mask acc lo hi =>
+      let c := conf_of a b gw mask 0 0 in
+      if Bool.eqb acc (valid_conf_b c) && (negb acc || ((c_sub_lo c =? lo) && (c_sub_hi c =? hi)))
+      then None
+      else Some (0, RApi (valid_conf_b c), ([], [c_sub_lo c; c_sub_hi c], []), false)
+  end.
 
 Definition case_ok (k : case) : bool :=
   match explain k with None => true | Some _ => false end.
